@@ -167,6 +167,10 @@ func (m *mon) make(id string, d time.Duration, where string) {
 	}
 	r.state = "notaccepted"
 	m.rec.Bucket("requests_not_accepted")
+	if prev == "" {
+		m.violation("make-request-ignored", fmt.Sprintf("the request to make timer %s (%s, in %v) on a free id was answered, but no such timer is reported as pending", id, uid, d))
+		return
+	}
 	if prev != "" && m.recs[prev].state == "pending" && m.reported[id] == "" {
 		// sio's answer to a duplicate id: the pending timer is cancelled, the new one is not created
 		m.recs[prev].state = "cancelled"
@@ -185,6 +189,11 @@ func (m *mon) cancel(id string, where string, blockedEmitting bool) {
 	m.rec.Eval(1)
 	m.rec.Bucket("cancel_" + where)
 	if uid == "" {
+		return
+	}
+	if m.reported[id] != "" && m.recs[uid].state == "pending" && m.recs[uid].delay >= time.Second {
+		// a timer that is nowhere near due, a cancel request for its id - and it is still pending
+		m.violation("cancel-request-ignored", fmt.Sprintf("the cancel request for the pending timer %s (%s, due in %v) was answered, but the timer is still reported as pending", id, uid, m.recs[uid].delay))
 		return
 	}
 	if m.reported[id] == "" {
@@ -458,10 +467,8 @@ func scenario(cfg fw.Config, rec *fw.Rec, i int) {
 			m.make(st.Id, d, where)
 		case "cancel":
 			if m.pending[st.Id] == "" {
-				// a failed cancel leaves the timers machine unable to match later requests
-				// (its bindings keep ?id); that is outside this property, so skip it
-				rec.Bucket("cancel_of_free_id_skipped")
-				continue
+				// refused, of course - and the timers machine must go on listening
+				rec.Bucket("cancel_of_free_id")
 			}
 			where := "outside"
 			if blocked {
@@ -681,14 +688,68 @@ func restart(cfg fw.Config, rec *fw.Rec, i int) {
 	}
 }
 
+// deletedTimersMachine: somebody deletes the timers machine while a timer is pending.  What
+// the timers then do must not make the crew report a machine it does not have (a store
+// applying the reports would hold a "timers" machine the crew lacks).
+func deletedTimersMachine(cfg fw.Config, rec *fw.Rec) {
+	for k := 0; k < 6; k++ {
+		desc := map[string]interface{}{"scenario": "timers machine deleted while a timer is pending", "variant": k}
+		m, cancel := newMon(rec, desc)
+		if m == nil {
+			return
+		}
+		store := map[string]bool{} // machine ids a store built from the reports would hold
+		apply := func(res *sio.Result) {
+			if res == nil {
+				return
+			}
+			for mid, ch := range res.Changed {
+				if ch.Deleted {
+					delete(store, mid)
+				} else {
+					store[mid] = true
+				}
+			}
+		}
+		m.make("t", time.Duration(5+3*k)*time.Millisecond, "before_delete")
+		m.make("long", 10*time.Second, "before_delete")
+		apply(m.process(map[string]interface{}{"to": "captain", "delete": []interface{}{"timers"}}))
+		if k%2 == 0 {
+			apply(m.process(map[string]interface{}{"to": "timers", "cancelTimer": "long"}))
+		}
+		// receive what fires, reporting as a host would
+		deadline := time.Now().Add(300 * time.Millisecond)
+		for time.Now().Before(deadline) && !m.bad {
+			select {
+			case x := <-m.ch.In:
+				apply(m.process(x))
+			case <-time.After(5 * time.Millisecond):
+			}
+		}
+		apply(m.process(map[string]interface{}{"to": "nobody-flush"}))
+		if !m.bad {
+			_, live := m.c.Machines[sio.TimersMachine]
+			if store[sio.TimersMachine] && !live {
+				m.violation("deleted-timers-machine-reported", "after the timers machine was deleted the crew still reports a state for it: a store built from the reports holds a timers machine the crew does not have")
+			} else {
+				rec.Bucket("timers_machine_deleted_with_pending_timers")
+			}
+		}
+		cancel()
+		close(m.consumer)
+		<-m.done
+	}
+}
+
 func Run(cfg fw.Config, rec *fw.Rec) {
 	log.SetOutput(io.Discard)
-	rec.Rule = "sio timers through a real Crew whose input channel the harness owns (the harness plays the crew loop; results are serialised by a consumer goroutine as Stdio does): scenarios of 4-18 steps over ids {x,y}: make (2-16 ms, or 10 s), cancel, receive for a while, stop receiving so that due timers block inside the emitter and then cancel / re-create the blocked id, quiesce; per timer: fired at most once, not before clock-before-request + delay, not after an acknowledged cancel that preceded its due time; at quiescent points the reported timers state (after a flush message) and the live machine state must equal accepted - fired - cancelled ('accepted' = reported pending right after the request); restart: timers persisted as JSON resume on a new crew (in a third of the scenarios the new crew is restarted again from what it reported), in a quarter the host stays down until the short timers are overdue while a 3 s timer is not yet due; the pending set held and reported right after each restart equals the persisted one, the timers fire exactly once on the last crew and never on an earlier one; under -race; non-trivial = scenario in which a timer fired; distinct by scenario"
-	rec.Required = []string{"fired", "accepted", "cancelled", "quiescent_points_compared", "phases_with_blocked_firing", "make_while_a_firing_is_blocked", "restart_scenarios", "timers_resumed_after_restart", "resumed_timer_cancelled_after_restart", "pending_set_compared_right_after_restart", "second_restart_from_state_reported_after_first", "restart_with_overdue_timers"}
+	rec.Rule = "sio timers through a real Crew whose input channel the harness owns (the harness plays the crew loop; results are serialised by a consumer goroutine as Stdio does): scenarios of 4-18 steps over ids {x,y}: make (2-16 ms, or 10 s), cancel (also of ids that are free: refused, and later requests must still be honoured), receive for a while, stop receiving so that due timers block inside the emitter and then cancel / re-create the blocked id, quiesce; per timer: fired at most once, not before clock-before-request + delay, not after an acknowledged cancel that preceded its due time; at quiescent points the reported timers state (after a flush message) and the live machine state must equal accepted - fired - cancelled ('accepted' = reported pending right after the request); restart: timers persisted as JSON resume on a new crew (in a third of the scenarios the new crew is restarted again from what it reported), in a quarter the host stays down until the short timers are overdue while a 3 s timer is not yet due; the pending set held and reported right after each restart equals the persisted one, the timers fire exactly once on the last crew and never on an earlier one; under -race; non-trivial = scenario in which a timer fired; distinct by scenario"
+	rec.Required = []string{"fired", "accepted", "cancelled", "quiescent_points_compared", "phases_with_blocked_firing", "make_while_a_firing_is_blocked", "restart_scenarios", "timers_resumed_after_restart", "resumed_timer_cancelled_after_restart", "pending_set_compared_right_after_restart", "second_restart_from_state_reported_after_first", "restart_with_overdue_timers", "cancel_of_free_id", "timers_machine_deleted_with_pending_timers"}
 	rec.Assume = []string{"a cancel acknowledged after the timer's due time overlaps its firing (the goroutine may already be blocked in the emitter): either outcome accepted", "requests the timers machine does not accept (duplicate pending id; requests after a failed cancel) are counted, not judged", "bounded progress: 30 s"}
 	n := cfg.Pick(150, 5000)
 	fw.Parallel(6, n, func(w, i int) { scenario(cfg, rec, i) })
 	for i := 0; i < cfg.Pick(15, 150); i++ {
 		restart(cfg, rec, i)
 	}
+	deletedTimersMachine(cfg, rec)
 }
